@@ -57,8 +57,12 @@ func genLive(t *rapid.T) LiveCase {
 		switch {
 		case k <= 9:
 			v := rapid.SliceOfN(rapid.Byte(), 0, 12).Draw(t, "v")
-			if rapid.IntRange(0, 5).Draw(t, "bigv") == 0 {
+			switch rapid.IntRange(0, 7).Draw(t, "bigv") {
+			case 0:
 				v = bytes.Repeat([]byte{'x'}, rapid.IntRange(200, 3000).Draw(t, "vlen"))
+			case 1:
+				// several of these in one replication response exceed the size at which the worker splits its proposals (256 KiB)
+				v = bytes.Repeat([]byte{'X'}, rapid.IntRange(60, 150).Draw(t, "vKiB")*1024)
 			}
 			c.Acts = append(c.Acts, Act{Kind: "put", K: rapid.SampledFrom(keys).Draw(t, "k"), V: v})
 		case k <= 11:
